@@ -214,6 +214,12 @@ def _mk_at(cls):
         has_mode = cls in ("DeltaCurrent", "DeltaPlusCurrent")
         imode = c.choice("interp_mode", ["default", "previous", "nearest"]) if has_mode else None
         mode_kw = {} if imode in (None, "default") else {"interp_mode": imode}
+        # the exponential synapses interpolate their SPIKE record by name too (spike_interp_mode, default "previous") - a
+        # choice independent of the analytic decay used for the current record
+        smode = c.choice("spike_interp_mode", ["default", "previous", "nearest"]) if not has_mode else None
+        if smode not in (None, "default"):
+            mode_kw["spike_interp_mode"] = smode
+        want_spike_interp = {None: None, "default": "interp_previous", "previous": "interp_previous", "nearest": "interp_nearest"}[smode]
         want_interp = {None: "interp_expdecay", "default": "interp_previous", "previous": "interp_previous", "nearest": "interp_nearest"}[imode]
         cob_mode = c.choice("current_overbound", ["value", "none", "constructor_defaults"])
         if cob_mode == "constructor_defaults":
@@ -249,7 +255,7 @@ def _mk_at(cls):
             c.ensure(f"{m}_passes_selector", a[1] is sel)
             c.ensure(f"{m}_tolerance_in_tolerance_position", eqnum(a[4], tol.z))
             iname = str(getattr(a[2], "qualname", None) or getattr(getattr(a[2], "node", None), "name", None) or a[2])
-            c.ensure(f"{m}_interpolates_as_configured", iname.split(".")[-1] == (want_interp if kind != "spike" or has_mode else iname.split(".")[-1]))
+            c.ensure(f"{m}_interpolates_as_configured", iname.split(".")[-1] == (want_interp if kind != "spike" or has_mode else want_spike_interp))
             exp_ob = sob if kind == "spike" else cob
             if exp_ob is None:
                 c.ensure(f"{m}_overbound_none_in_overbound_position", a[5] is None)
